@@ -9,10 +9,11 @@ import signal
 
 from psv import simk
 from psv.run import harness
-from psv.simk import psutil
+from psv.simk import _psposix, psutil
+
 
 P, Q = 77, 80
-EVENTS = ["exit-to-zombie", "reap", "exit-and-reap", "reuse-live", "reuse-zombie", "is_running()", "process_iter()", "name()"]
+EVENTS = ["exit-to-zombie", "reap", "exit-and-reap", "reuse-live", "reuse-zombie", "is_running()", "process_iter()", "name()", "wait(0)"]
 MUTATORS = ["send_signal", "suspend", "resume", "terminate", "kill", "nice", "ionice", "rlimit", "cpu_affinity"]
 
 META = dict(
@@ -68,7 +69,7 @@ def _same_args(ctx, got, want):
 
 
 NAMES = [b"cat", b"job (batch) 17", b"job (batch) 18", b") ("]
-POPEN_EVENTS = ["exit-to-zombie", "exit-and-reap", "reuse-live", "status-collected", "is_running()"]
+POPEN_EVENTS = ["exit-to-zombie", "exit-and-reap", "reuse-live", "status-collected", "is_running()", "wait(0)"]
 DENY_EVENTS = ["exit-and-reap", "reuse-live", "stat-unreadable", "stat-readable-again", "is_running()"]
 
 
@@ -85,7 +86,8 @@ def history(ctx, K, what, variant=None):
     psutil.Popen over a subprocess.Popen stand-in whose exit status may be collected at some point (event `status-collected`:
     returncode set, as poll()/wait()/communicate() do); variant "forked": the object was built by a process for ITSELF (pid ==
     os.getpid() at that time) and is used after a fork by the child, for which it denotes the parent; variant "stopped": the target is
-    in the stopped state (T) -- exactly the signal asked for is delivered, nothing else"""
+    in the stopped state (T) -- exactly the signal asked for is delivered, nothing else.  Event `wait(0)`: Process.wait(timeout=0)
+    (os.waitpid answers ECHILD except for the Popen variant's own child, whose status it hands out once)"""
     k = simk.Kernel(ctx)
     simk.system_files(k)
     inc = [ctx.int("start0", 0, 10**7)]
@@ -125,7 +127,20 @@ def history(ctx, K, what, variant=None):
     class _Subprocess:
         Popen = _Sub
 
-    with k.installed(extra=[(psutil, "subprocess", _Subprocess)] if variant == "popen" else []), contextlib.ExitStack() as stack:
+    def waitpid(pid, flags):
+        # os.waitpid(): only the psutil.Popen variant's process is a child of ours; its status can be collected once
+        if pid != P or variant != "popen" or _Sub.returncode is not None or state["inc"] != 0 or not state["listed"]:
+            raise ChildProcessError(errno.ECHILD, "No child processes")
+        if not state["zombie"]:
+            return (0, 0)
+        set_listed(False)
+        return (P, 0)
+
+    k.waitpid_fn = waitpid
+    d = _psposix.wait_pid.__defaults__
+    assert len(d) == 7, d
+    wait_env = [(_psposix.wait_pid, "__defaults__", (d[0], d[1], waitpid, k.timer, d[4], k.sleep, d[6]))]
+    with k.installed(extra=wait_env + ([(psutil, "subprocess", _Subprocess)] if variant == "popen" else [])), contextlib.ExitStack() as stack:
         if variant == "forked":
             k.os_proxy.getpid = lambda: P
         p = psutil.Popen(["child"]) if variant == "popen" else psutil.Process() if variant == "forked" else psutil.Process(P)
@@ -167,6 +182,11 @@ def history(ctx, K, what, variant=None):
                 p.is_running()
             elif ev == "process_iter()":
                 list(psutil.process_iter())
+            elif ev == "wait(0)":
+                try:
+                    p.wait(0)
+                except psutil.TimeoutExpired:
+                    pass
             elif ev == "name()":
                 try:
                     p.name()
